@@ -169,6 +169,7 @@ class Contract:
         self.lemmas = d.get('lemmas', [])
         self.decreases_entry = d.get('decreases', None)
         self.ghost_out = d.get('ghost_out', {})   # name -> (rank, [shape exprs]): ghost arrays the postcondition may mention
+        self.alltoall = d.get('alltoall', None)   # (chunk size expr, [chunk lens exprs]) for the Alltoall issued by this function
         self.creates = d.get('creates', {})   # attributes of self the method creates: name -> sort spec (fresh values constrained by ensures)
         self.allow_negative_index = d.get('allow_negative_index', False)
         self.interp_src = d.get('interp_src', None)   # (spline param, data param): records what the spline now interpolates
